@@ -602,8 +602,20 @@ def rule_pair(ck):
     g = P.func(M + 'binned_ecdf')
     calls = [n for n in all_nodes(g) if isinstance(n, ast.Call) and callee(P, g, n) in (M + 'less_equal_ecdf', M + 'greater_equal_ecdf')]
     o = ck.ob('C09-D3.binned', g, calls[0] if calls else 'less_equal_ecdf call', calls[0] if calls else g.node)
+    def _in_handler(n_):
+        cur = n_
+        while getattr(cur, '_parent', None) is not None and cur is not g.node:
+            if isinstance(cur._parent, ast.ExceptHandler):
+                return True
+            cur = cur._parent
+        return False
+    lookups = [n for n in all_nodes(g) if isinstance(n, ast.Call) and (call_name(n) or '').split('.')[-1] in ('searchsorted', 'digitize', 'bisect_right', 'bisect_left')]
     if len(calls) != 1 or callee(P, g, calls[0]) != M + 'less_equal_ecdf':
         o.fail('binned_ecdf does not evaluate P(X <= val) with less_equal_ecdf')
+    elif _in_handler(calls[0]) or lookups:
+        o.fail('binned_ecdf answers from `%s` and reaches less_equal_ecdf only %s: a position of -1 for a value below the sample wraps around '
+               'instead of raising, so P(X <= v) = 1 is reported where it is 0' % (u(lookups[0])[:50] if lookups else 'another lookup',
+                                                                                   'in an exception handler' if _in_handler(calls[0]) else 'beside it'))
     else:
         exg = Expander(P, g)
         c = exg.expand(calls[0])
